@@ -370,6 +370,33 @@ pub fn run_memory(ctx: &Ctx) {
             }
             mem_case(ctx, &svc, &[], &b, "random-bytes", "-");
         }
+        // malformed messages whose length sits at the sizes an implementation might cut, copy or cap
+        // at (excerpts in diagnostics, read buffers), filled with multi-byte characters at every
+        // alignment, or with one invalid byte near such an offset (seeded C06-r10: the excerpt kept in
+        // the error value is cut at byte 256 of the lossily decoded text - inside a character)
+        if w == 0 {
+            let fills: [&str; 5] = ["\u{e9}", "\u{20ac}", "\u{1d11e}", "a\u{e9}\u{20ac}\u{1f600}", "x"];
+            for &len in &[31usize, 63, 64, 127, 128, 255, 256, 257, 258, 259, 511, 512, 1023, 1024, 1025, 4095, 4096, 4097, 8191, 8192, 8193, 65535, 65536] {
+                for shift in 0..4usize {
+                    for (fi, fill) in fills.iter().enumerate() {
+                        let mut b: Vec<u8> = "{".repeat(shift).into_bytes();
+                        while b.len() < len + shift {
+                            b.extend_from_slice(fill.as_bytes());
+                        }
+                        if fi == 4 {
+                            // ASCII with one invalid byte at an offset near the size
+                            let at = (len.saturating_sub(3) + shift).min(b.len() - 1);
+                            b[at] = 0xff;
+                        }
+                        b.push(0);
+                        let mut stream = seq_bytes(&[Req::new(ALL_KINDS[0], Flags { more: false, oneway: false }, "b")]);
+                        let orig = stream.clone();
+                        stream.extend_from_slice(&b);
+                        mem_case(ctx, &svc, &orig, &stream, "garbage-at-size-boundary", "-");
+                    }
+                }
+            }
+        }
     });
 }
 
